@@ -17,6 +17,7 @@ META = {
     "assumptions": [
         "alphabet members only (no claim for other reals)",
         "oracle differentiates the implementation's own error function (C02 owns the error model, C09 the boxplus)",
+        "every (pose, offset) also with the landmark exactly at the sensor position; Jacobians must not depend on the fixed flags nor on the information matrix (partial with zero rows, 1e-12 I, integer dtype)",
         "each configuration is also evaluated a second time after an in-place edit of the first vertex's pose (history of length 2)",
         "SE(2) angular error is unwrapped by multiples of 2 pi before differencing (the property excludes the wrap set); SE(3) rotational error sign is aligned when |q_vec| > 0.5",
         "tolerance 1e-9 x (1 + sum of translation magnitudes in the configuration) (5-point oracle accurate to ~1e-11 relative; measured ratio <= 1e-4)",
@@ -81,7 +82,10 @@ def run_chunk(chunk, tier, seed):
         pts = A.poses(pk, tier, seed)
         zs = [[0.0] * len(pts[0]), A.jit(seed, "lmz", [0.4, -0.6, 0.9])[: len(pts[0])]]
         for off in _offs(kind, tier, seed):
-            for l in pts:
+            # geometric coincidence: the landmark sits exactly at the sensor position p1 (+) offset (the measurement direction is undefined there,
+            # the derivative is not)
+            at_sensor = G.compose(kind, I.comps(I.mk_pose(kind, p1)), I.comps(I.mk_pose(kind, off)))[: len(pts[0])]
+            for l in pts + [at_sensor]:
                 for z in zs:
                     _do(acc, {"edge": "lm", "kind": kind, "p1": p1, "off": off, "l": l, "z": z})
     return acc
@@ -206,6 +210,17 @@ def _eval(case):
                         msgs.append("Jacobian %d changes when the vertices are marked fixed=%r" % (vi, flags))
             for v in e.vertices:
                 v.fixed = False
+        # ... nor about the information matrix (partial information with all-zero rows, tiny information, integer-typed information)
+        if not msgs:
+            keep_info = e.information
+            for name, om in (("diag(1,..,0)", np.diag([1.0] * (n - 1) + [0.0])), ("diag(0,..,10)", np.diag([0.0] * (n - 1) + [10.0])), ("1e-12 I", 1e-12 * np.eye(n)), ("integer identity", np.eye(n, dtype=int))):
+                e.information = om
+                ji = e.calc_jacobians()
+                nops += 1
+                for vi in (0, 1):
+                    if np.asarray(ji[vi]).shape != np.asarray(jacs[vi]).shape or not np.array_equal(np.asarray(ji[vi], dtype=float), np.asarray(jacs[vi], dtype=float)):
+                        msgs.append("Jacobian %d changes when the edge's information matrix is %s (the error does not depend on it)" % (vi, name))
+            e.information = keep_info
         # history: evaluate the error, edit the first vertex's pose IN PLACE (a user may do that: poses are arrays), then ask
         # for the Jacobians again -- they must be the derivative at the NEW pose (no stale intermediate results)
         if not msgs:
